@@ -168,6 +168,29 @@ def RevertJEqualsPrefixStatement : Prop :=
         ∀ tgt, (p0 :: l.map (·.2))[h.length - j]? = some tgt →
           PlainEq (applyChangeset (toPlainState (revertN s.bundle j) known) p0) tgt
 
+/-! ## decidable region of C17's second sentence (`revert(j)` = prefix bundle) -/
+
+/-- `BundleState::revert_latest` applies a storage-wiping `AccountRevert` exactly only when the revert lists
+no slot and the bundle account it is applied to holds no slot entries (findings F2a / F2b: `BundleAccount::revert`
+ignores `wipe_storage`, so original values and stale entries are not restored) -/
+def wipeOk (b? : Option BAcct) (r : ARevert) : Bool :=
+  !r.wipe || (r.storage.isEmpty && (match b? with | some b => b.storage.isEmpty | none => true))
+
+/-- every revert of the latest block is in that region -/
+def revertStepOk (b : BState) : Bool :=
+  match b.reverts.getLast? with
+  | none => true
+  | some blk => blk.all (fun e => wipeOk (b.state.get e.1) e.2)
+
+/-- every one of the j `revert_latest` steps of `revert(j)` is in that region -/
+def revertOk (b : BState) : Nat → Bool
+  | 0 => true
+  | j + 1 => revertStepOk b && (if (revertLatest b).2 then revertOk (revertLatest b).1 j else true)
+
+/-- simpler sufficient condition: none of the last j blocks holds a storage-wiping revert -/
+def noWipeInLast (b : BState) (j : Nat) : Bool :=
+  (b.reverts.drop (b.reverts.length - j)).all (fun blk => blk.all (fun e => !e.2.wipe))
+
 /-- **C18, full statement** (split by a fresh `State` over the committed first half): the extended
 bundle describes the same post-state and the same per-block pre-values as the monolithic one. -/
 def ExtendStatement (dbReading : Bool) : Prop :=
